@@ -109,6 +109,9 @@ class Machine:
         defaults = fi.node.args.defaults
         for p, d in zip(params[len(params) - len(defaults):], defaults):
             env[p] = self.ev(d, {}, header)
+        if fi.node.args.vararg is not None and \
+                fi.node.args.vararg.arg in args:
+            env[fi.node.args.vararg.arg] = args[fi.node.args.vararg.arg]
         for p in params:
             if p in args:
                 env[p] = args[p]
@@ -413,8 +416,12 @@ class Machine:
                     not callee.cls:
                 params = [a.arg for a in callee.node.args.args]
                 bound = {}
-                for p, a in zip(params, e.args):
-                    bound[p] = self.ev(a, env, header)
+                vals_ = [self.ev(a, env, header) for a in e.args]
+                for p, v_ in zip(params, vals_):
+                    bound[p] = v_
+                if callee.node.args.vararg is not None:
+                    bound[callee.node.args.vararg.arg] = \
+                        tuple(vals_[len(params):])
                 for k in e.keywords:
                     if k.arg:
                         bound[k.arg] = self.ev(k.value, env, header)
